@@ -727,31 +727,74 @@ class HistT2(StageComp):
 
 
 class HistTurn(StageComp):
-    """whole real `run_turn`s on one world (graph with edges + memory), scheduler off / on with varying T1 and
-    T2 budgets, all caches at their defaults or all off: each turn's logged stage work stays within that
-    turn's slice budgets (one active graph, so the per-graph clamp is the total)."""
+    """whole real `run_turn`s on one world (graph with edges + memory).  The ctx is either fresh per turn or ONE
+    long-lived object for the whole history (config edited in place, or the cfg object replaced, or both
+    alternately); between turns the budgets are loosened / tightened / removed, t3_ops and quantum vary and the
+    scheduler is toggled; caches at their defaults or all off.  Every turn is judged against the budgets IN FORCE
+    that turn (its own configuration): stage work within them (one active graph, so the per-graph clamp is the
+    total), the budgets the stages saw and the scheduler event reports are this turn's, and the yield
+    (stage, reason) is the one Lean's table gives for this turn's budgets on the logged counters."""
     name = "hist.turn"
-    budget = {"quick": 40, "thorough": 400, "search": 150}
+    budget = {"quick": 60, "thorough": 600, "search": 200}
 
     def gen(self, rng: random.Random, i: int) -> dict:
         turns = []
-        for _ in range(rng.choice([2, 3, 3, 4])):
-            if rng.random() < 0.3:
+        loose = {"t1_pops": 100, "t1_iters": 50, "t2_k": 64, "t3_ops": 50}
+        prev = None
+        for _ in range(rng.choice([2, 3, 3, 4, 5])):
+            r = rng.random()
+            if r < 0.2:
                 turns.append({"off": True})
                 continue
-            b = {}
-            if rng.random() < 0.7:
-                b["t1_pops"] = rng.choice([0, 1, 2, 100])
-            if rng.random() < 0.6:
-                b["t1_iters"] = rng.choice([0, 1, 2, 50])
-            if rng.random() < 0.7:
-                b["t2_k"] = rng.choice([0, 1, 3, 64])
+            if r < 0.35:
+                b = dict(loose)
+            elif r < 0.55 and prev is not None:
+                # tighten / remove one key of the previous turn's budgets
+                b = dict(prev)
+                k = rng.choice(["t1_pops", "t1_iters", "t2_k", "t3_ops"])
+                if rng.random() < 0.3:
+                    b.pop(k, None)
+                else:
+                    b[k] = rng.choice([0, 1, 1, 2])
+            else:
+                b = {}
+                if rng.random() < 0.7:
+                    b["t1_pops"] = rng.choice([0, 1, 2, 100])
+                if rng.random() < 0.6:
+                    b["t1_iters"] = rng.choice([0, 1, 2, 50])
+                if rng.random() < 0.7:
+                    b["t2_k"] = rng.choice([0, 1, 3, 64])
+                if rng.random() < 0.4:
+                    b["t3_ops"] = rng.choice([1, 2, 50])
+            prev = b
             turns.append({"b": b})
-        return {"n": rng.choice([2, 5]), "size": rng.choice([3, 5]), "turns": turns, "cache": rng.random() < 0.85}
+        return {"n": rng.choice([2, 5]), "size": rng.choice([3, 5]), "turns": turns, "cache": rng.random() < 0.8,
+                "ctx_mode": rng.choice(["fresh", "reuse_edit", "reuse_edit", "reuse_replace", "reuse_replace", "reuse_mixed"])}
+
+    def _cfg(self, case, t):
+        cfg = base_cfg()
+        cfg["t1"].setdefault("decay", {"mode": "exp_floor", "rate": 0.6, "floor": 0.05})
+        cfg["t2"]["sim_threshold"] = -1.0
+        cfg["t2"]["tiers"] = ["exact_semantic"]
+        cfg["t2"]["exact_recent_days"] = 30
+        cfg.setdefault("t4", {})["snapshot_dir"] = str(STATE["scratch"])
+        if not case["cache"]:
+            cfg["t1"]["cache"] = {"enabled": False, "max_entries": 0, "ttl_s": 0}
+            cfg["t2"]["cache"] = {"enabled": False, "max_entries": 0, "ttl_s": 0}
+            cfg["t4"]["cache"] = {"enabled": False}
+        cfg["scheduler"] = self._sched(t)
+        return cfg
+
+    @staticmethod
+    def _sched(t):
+        if t.get("off"):
+            return {"enabled": False}
+        return {"enabled": True, "quantum_ms": 10 ** 8, "budgets": dict(t["b"], wall_ms=10 ** 9)}
 
     def impl(self, case):
         import clematis.engine.orchestrator as orch
         from clematis.engine.orchestrator import core
+        from clematis.engine.stages.t3 import deliberate
         from clematis.graph.store import InMemoryGraphStore, Node, Edge
         tok = _case_token(case)
         state = _mem_state(case["n"])
@@ -764,67 +807,115 @@ class HistTurn(StageComp):
                                  for k in range(1, n)])
         state["store"], state["active_graphs"], state["version_etag"] = store, [gid], "0"
         text = "tell me about apple " + tok
+        mode = case.get("ctx_mode", "fresh")
+        ctx = None
         out = []
-        for t in case["turns"]:
-            cfg = base_cfg()
-            cfg["t1"].setdefault("decay", {"mode": "exp_floor", "rate": 0.6, "floor": 0.05})
-            cfg["t2"]["sim_threshold"] = -1.0
-            cfg["t2"]["tiers"] = ["exact_semantic"]
-            cfg["t2"]["exact_recent_days"] = 30
-            cfg.setdefault("t4", {})["snapshot_dir"] = str(STATE["scratch"])
-            if not case["cache"]:
-                cfg["t1"]["cache"] = {"enabled": False, "max_entries": 0, "ttl_s": 0}
-                cfg["t2"]["cache"] = {"enabled": False, "max_entries": 0, "ttl_s": 0}
-                cfg["t4"]["cache"] = {"enabled": False}
-            if t.get("off"):
-                cfg["scheduler"] = {"enabled": False}
+        for ti, t in enumerate(case["turns"]):
+            if mode == "fresh" or ctx is None:
+                ctx = SimpleNamespace(turn_id="1", agent_id="A", now="2025-09-01T00:00:00Z", now_ms=0, cfg=_attrdict(self._cfg(case, t)))
+            elif mode == "reuse_replace" or (mode == "reuse_mixed" and ti % 2 == 0):
+                ctx.cfg = _attrdict(self._cfg(case, t))           # same ctx object, new cfg object
             else:
-                cfg["scheduler"] = {"enabled": True, "quantum_ms": 10 ** 8, "budgets": dict(t["b"], wall_ms=10 ** 9)}
-            ctx = SimpleNamespace(turn_id="1", agent_id="A", now="2025-09-01T00:00:00Z", now_ms=0, cfg=_attrdict(cfg))
+                ctx.cfg["scheduler"] = _attrdict(self._sched(t))  # same ctx, same cfg object, edited in place
+            ctx.turn_id = str(ti + 1)
             recs: List[Tuple[str, dict]] = []
-            saved = orch.__dict__.get("append_jsonl")
+            seen: Dict[str, Any] = {}
+
+            def t3_wrap(c, s, bundle):
+                plan = deliberate(bundle)
+                seen["nops"] = len(getattr(plan, "ops", []) or [])
+                return plan
+            saved = {k: orch.__dict__.get(k) for k in ("append_jsonl", "t3_deliberate")}
             try:
                 orch.append_jsonl = lambda f, p: recs.append((f, copy.deepcopy(p)))
+                orch.t3_deliberate = t3_wrap
                 core.run_turn(ctx, state, text)
             finally:
-                if saved is None:
-                    orch.__dict__.pop("append_jsonl", None)
-                else:
-                    orch.append_jsonl = saved
+                for k, v in saved.items():
+                    if v is None:
+                        orch.__dict__.pop(k, None)
+                    else:
+                        setattr(orch, k, v)
             t1 = [p for f, p in recs if f == "t1.jsonl"]
             t2 = [p for f, p in recs if f == "t2.jsonl"]
             ev = [p for f, p in recs if f == "scheduler.jsonl"]
+            sb = getattr(ctx, "slice_budgets", "absent")
             out.append({"pops": t1[0].get("pops") if t1 else None, "iters": t1[0].get("iters") if t1 else None,
                         "t1_cache_hits": t1[0].get("cache_hits") if t1 else None,
-                        "k_used": t2[0].get("k_used") if t2 else None,
+                        "k_used": t2[0].get("k_used") if t2 else None, "nops": seen.get("nops"),
+                        "slice_budgets": copy.deepcopy(sb) if isinstance(sb, dict) else ("absent" if sb == "absent" else None),
+                        "event_budgets": ev[0].get("budgets") if ev else None,
+                        "consumed": ev[0].get("consumed") if ev else None,
                         "yield": [ev[0].get("stage_end"), ev[0].get("reason")] if ev else None})
         return out
 
+    @staticmethod
+    def _in_force(t) -> dict:
+        return dict(t["b"], wall_ms=10 ** 9, quantum_ms=10 ** 8)
+
+    def monitor_requests(self, case, io):
+        """Lean's table on this turn's budgets and the logged counters (elapsed ms is far below quantum/wall: 0)."""
+        rq = []
+        for ti, (t, o) in enumerate(zip(case["turns"], io)):
+            if t.get("off") or o["pops"] is None:
+                continue
+            b = self._in_force(t)
+            bnds = [["T1", {"ms": 0, "t1_iters": o["iters"], "t1_pops": o["pops"]}]]
+            if o["k_used"] is not None:
+                bnds.append(["T2", {"ms": 0, "t2_k": o["k_used"]}])
+                if o["nops"] is not None:
+                    bnds.append(["T3", {"ms": 0, "t3_ops": o["nops"]}])
+                    bnds += [["T4", {"ms": 0}], ["Apply", {"ms": 0}]]
+            y = o["yield"]
+            # the skeleton is decidable from what was logged unless the turn ran past a stage whose counter we lack
+            complete = len(bnds) == 5 or (y is not None and y[0] in [x[0] for x in bnds])
+            if complete and (y is None or y[0] in BOUNDARIES):
+                rq.append((f"turn_yield_for_budgets_in_force", {"c": "turn.skeleton", "budgets": b, "boundaries": bnds, "got": y}))
+        return rq
+
     def monitors(self, case, io):
         res = []
+        mode = case.get("ctx_mode", "fresh")
         for ti, (t, o) in enumerate(zip(case["turns"], io)):
             if t.get("off"):
                 res.append(("off_turn_never_yields", o["yield"] is None, f"turn {ti} scheduler off but yielded {o['yield']}"))
+                res.append(("off_turn_no_slice_budgets", o["slice_budgets"] in ("absent", None),
+                            f"turn {ti} scheduler off ({mode}) but the ctx still carries slice_budgets {o['slice_budgets']}"))
                 continue
             b = t["b"]
-            ctxt = f"turn {ti} budgets {b} after turns {case['turns'][:ti]}: {o}"
+            ctxt = f"turn {ti} ({mode}) budgets in force {b} after turns {case['turns'][:ti]}: {o}"
+            res.append(("turn_slice_budgets_in_force", o["slice_budgets"] == self._in_force(t), ctxt))
+            if o["event_budgets"] is not None:
+                res.append(("turn_event_reports_budgets_in_force", o["event_budgets"] == dict(b, wall_ms=10 ** 9), ctxt))
             if "t1_pops" in b and o["pops"] is not None:
                 res.append(("turn_t1_pops_clamped", o["pops"] <= b["t1_pops"], ctxt))
             if "t1_iters" in b and o["iters"] is not None:
                 res.append(("turn_t1_iters_clamped", o["iters"] <= b["t1_iters"], ctxt))
             if "t2_k" in b and o["k_used"] is not None:
                 res.append(("turn_t2_k_used_clamped", o["k_used"] <= b["t2_k"], ctxt))
+            if "t3_ops" in b and o["nops"] is not None:
+                res.append(("turn_t3_ops_clamped", o["nops"] <= b["t3_ops"], ctxt))
         return res
 
     def tags(self, case, io):
-        t = ["cache_on" if case["cache"] else "cache_off"]
+        t = ["cache_on" if case["cache"] else "cache_off", "ctx=" + case.get("ctx_mode", "fresh")]
         if any(o.get("t1_cache_hits") for o in io):
             t.append("t1_cache_hit")
-        if any(o.get("yield") for o in io):
-            t.append("yielded")
+        for o in io:
+            if o.get("yield"):
+                t.append("yield@" + str(o["yield"][0]))
         if any(x.get("off") for x in case["turns"]) and any(not x.get("off") for x in case["turns"]):
             t.append("off_and_on")
-        return t
+        on = [x["b"] for x in case["turns"] if not x.get("off")]
+        for a, b in zip(on, on[1:]):
+            for k in ("t1_pops", "t1_iters", "t2_k", "t3_ops"):
+                if b.get(k, 10 ** 9) < a.get(k, 10 ** 9):
+                    t.append("tightened")
+                if b.get(k, 10 ** 9) > a.get(k, 10 ** 9):
+                    t.append("loosened")
+                if k in a and k not in b:
+                    t.append("removed")
+        return sorted(set(t))
 
     def shrink(self, case):
         ts = case["turns"]
